@@ -350,6 +350,33 @@ def run_unit(unit, rec):
                             bad = ("c", "samples do not have the requested total capture")
                         if bad is None and not np.array_equal(np.asarray(X), np.asarray(X2)):
                             bad = ("d", "two calls with the same seed return different samples")
+                        if bad is None and l1 is not None and engine is None and nn == 2000 and n <= 5:
+                            # coverage of the slice {gamut, total = l1}: for a convex body of dimension k the cap of relative depth t under a
+                            # support point has at least the fraction t^k of the volume, so 2000 uniform samples miss it with probability
+                            # <= (1 - t^k)^2000 (< 1e-13 for the values below)
+                            Vz = c0 + AL.lattice(lo, hi, (0.0, 1.0)) @ Abar.T
+                            sz = Vz.sum(1)
+                            Z = [v for v, s_ in zip(Vz, sz) if abs(s_ - l1) <= 1e-12]
+                            for i_, j_ in itertools.combinations(range(len(Vz)), 2):
+                                if (sz[i_] - l1) * (sz[j_] - l1) < 0:
+                                    t_ = (l1 - sz[i_]) / (sz[j_] - sz[i_])
+                                    Z.append(Vz[i_] + t_ * (Vz[j_] - Vz[i_]))
+                            Z = np.array(Z)
+                            k_ = m - 1
+                            depth = 0.15 if k_ <= 2 else 0.25
+                            cen = Z.mean(0)
+                            Xs_ = np.asarray(X, dtype=float)
+                            worst = 0.0
+                            for z in Z:
+                                u = z - cen
+                                if np.linalg.norm(u) <= 1e-9 * ext:
+                                    continue
+                                hz = Z @ u
+                                short = (hz.max() - float(np.max(Xs_ @ u))) / (hz.max() - hz.min())
+                                worst = max(worst, short)
+                            rec.stat_max("slice_coverage_shortfall", worst)
+                            if worst > depth:
+                                bad = ("e", "a part of the slice of the gamut at the requested total is never sampled (2000 samples stay %.0f %% of the slice's width away from one of its vertices)" % (100 * worst))
                         rec.outcome("system-%s/%s" % ("l1" if l1 is not None else "plain", "ok" if bad is None else "bad"))
                         if bad:
                             _v(rec, bad[0], dict(sig, what=bad[1][:40]), bad[1], case, observed=np.asarray(X)[:3], script=scr)
